@@ -20,7 +20,12 @@ Record proxy_rec := mkProxy {
 }.
 
 Definition server := list proxy_rec.
-Definition env := list (string * option Z).
+
+(** what the OS says about a listen string: the port it denotes, how net.ResolveTCPAddr prints it
+    (what Differs compares with) and how the bound listener prints its address (what a started
+    proxy stores as its listen address). [None] = cannot be resolved / bound. *)
+Record addr_info := mkAddr { a_port : Z; a_resolved : string; a_bound : string }.
+Definition env := list (string * option addr_info).
 
 Inductive meth := GET | POST | PATCH | DELETE | PUT | HEAD.
 Definition meth_name (m : meth) : string :=
@@ -50,7 +55,7 @@ Fixpoint replace_proxy (s : server) (p' : proxy_rec) : server :=
 Fixpoint remove_proxy (s : server) (name : string) : server :=
   match s with [] => [] | p :: r => if String.eqb (p_name p) name then r else p :: remove_proxy r name end.
 
-Fixpoint lookup_env (e : env) (l : string) : option Z :=
+Fixpoint lookup_env (e : env) (l : string) : option addr_info :=
   match e with [] => None | (k, v) :: r => if String.eqb k l then v else lookup_env r l end.
 
 (** does an enabled proxy other than [self] hold [port]? *)
@@ -59,7 +64,7 @@ Fixpoint port_busy (e : env) (s : server) (self : string) (port : Z) : bool :=
   | [] => false
   | p :: r =>
     (negb (String.eqb (p_name p) self) && p_enabled p &&
-       match lookup_env e (p_listen p) with Some q => q =? port | None => false end)%Z
+       match lookup_env e (p_listen p) with Some q => a_port q =? port | None => false end)%Z
     || port_busy e r self port
   end.
 
@@ -67,9 +72,9 @@ Fixpoint port_busy (e : env) (s : server) (self : string) (port : Z) : bool :=
 Definition start_proxy (e : env) (s : server) (p : proxy_rec) : option proxy_rec :=
   match lookup_env e (p_listen p) with
   | None => None
-  | Some port =>
-    if port_busy e s (p_name p) port then None
-    else Some (mkProxy (p_name p) (p_listen p) (p_upstream p) true (p_up p) (p_down p))
+  | Some a =>
+    if port_busy e s (p_name p) (a_port a) then None
+    else Some (mkProxy (p_name p) (a_bound a) (p_upstream p) true (p_up p) (p_down p))
   end.
 
 Definition stop_proxy (p : proxy_rec) : proxy_rec :=
@@ -143,8 +148,8 @@ Definition h_proxy_update (e : env) (s : server) (name : string) (b : body) : re
         let want := match pi_enabled inp with Some b => b | None => p_enabled p end in
         match lookup_env e (pi_listen inp) with
         | None => (err status_internal, s)              (* Differs: ResolveTCPAddr fails *)
-        | Some _ =>
-          let differs := negb (String.eqb (p_listen p) (pi_listen inp)) || negb (String.eqb (p_upstream p) (pi_upstream inp)) in
+        | Some a =>
+          let differs := negb (String.eqb (p_listen p) (a_resolved a)) || negb (String.eqb (p_upstream p) (pi_upstream inp)) in
           let p1 := if differs then mkProxy (p_name p) (pi_listen inp) (pi_upstream inp) false (p_up p) (p_down p) else p in
           let s1 := replace_proxy s p1 in
           if Bool.eqb want (p_enabled p1) then (mkResp status_ok (PProxy p1), s1)
@@ -199,8 +204,8 @@ Fixpoint populate_apply (e : env) (s : server) (items : list proxy_in) (done : l
     | Some old =>
       match lookup_env e (pi_listen i) with
       | None => (mkResp status_internal (PPopulate done), s)                       (* Differs fails *)
-      | Some _ =>
-        let differs := negb (String.eqb (p_listen old) (pi_listen i)) || negb (String.eqb (p_upstream old) (pi_upstream i)) in
+      | Some a =>
+        let differs := negb (String.eqb (p_listen old) (a_resolved a)) || negb (String.eqb (p_upstream old) (pi_upstream i)) in
         if negb differs then populate_apply e s r (done ++ [old])%list
         else
           let s1 := replace_proxy s (stop_proxy old) in
